@@ -194,7 +194,9 @@ def block_validity(w):
     elif tamper == "wit.malleate":
         i = rng.choice(seg_idx)
         t = copy.deepcopy(rest[i])
-        t.vin[0].script_witness = Witness([b"\x02" + bytes([salt]), b"\x51"])
+        st = list(rest[i].vin[0].script_witness.stack)
+        st[0] = bytes([st[0][0] ^ 0x80]) + st[0][1:]      # another witness for the same txid
+        t.vin[0].script_witness = Witness(st)
         t_rest[i] = t
         remine = False                                  # the txid, hence the header, does not move
     elif tamper == "wit.strip_one":
